@@ -101,6 +101,7 @@ class InterpBase:
     self.cond_checks = {}        # kind of wake-up condition ('content', 'stop') -> logical time it was last tested
     self.release_hooks = []      # callables(interp, lock) run whenever a lock is released (publication checks)
     self.call_log = []           # (callee short name, result) of contract calls that returned normally
+    self.call_args_log = []      # (callee short name, parameter environment) of the same calls
 
   # ---- path helpers -----------------------------------------------------------------
   @property
